@@ -73,6 +73,18 @@ CHECKS["C10"] = dict(
          "listed in known_findings.json. Statement-level layout is not part of C10.",
     design="§4 C10")
 
+CHECKS["C01"] = dict(
+    engine="E2 mirsym (MIR -> z3) + E3 srcsym", technique="symbolic execution of rustc MIR of the AST->typed AST->Core operator arms, source-extracted printer templates, z3 finite-domain and linear-integer queries, native replay through python3",
+    text="Bounded model checking of the operator and range kernels: NodeTy::from and convert_node are executed from MIR "
+         "for every documented operator kind (recursive conversions uninterpreted), the printed Python operator comes "
+         "from the to_py templates; z3 compares operator and operand order with the documented meaning. The Range arm "
+         "of convert_range_slice is executed from MIR and its argument terms are compared with Python's range "
+         "semantics for all a, b in [-8, 8], step in [1, 4], inclusive/exclusive, with/without step.",
+    note="RESTRICTED claim (operator and range kernels only): implicit return insertion, if/match as expression, "
+         "handle -> try/except, class constructors, slices, negative steps, annotate interplay (see C11) and execution "
+         "of whole programs are outside. The parser stage (token -> node) is only covered by the replay programs.",
+    design="§4 C01")
+
 NOT_APPLICABLE = {
     "C02": "needs the generator executed on symbolic programs (core::fmt/to_py recursion does not finish in CBMC even on concrete 3-node trees) and membership in Python's grammar as the assertion; no encodable kernel (DESIGN §6)",
     "C04": "oracle is Python's dynamic semantics over whole programs and the subject is the whole checker (HashSet/recursion out of reach of Kani; not loop-free for the MIR executor) (DESIGN §6)",
